@@ -35,7 +35,7 @@ REACH = ["_tree:Tree.calc_node_ages", "_tree:Tree.node_ages", "_tree:Tree.intern
          "_tree:Tree.num_lineages_at", "_tree:Tree.length", "_tree:Tree.max_distance_from_root", "_tree:Tree.minmax_leaf_distance_from_root",
          "treemeasure:B1", "treemeasure:colless_tree_imbalance", "treemeasure:pybus_harvey_gamma", "treemeasure:N_bar",
          "treemeasure:sackin_index", "treemeasure:treeness"]
-MIN_EVENTS = {"ages-compared": (500, 15000), "threshold-accept-judged": (500, 15000), "threshold-reject-judged": (500, 15000),
+MIN_EVENTS = {"ages-compared": (500, 15000), "threshold-accept-judged": (500, 8000), "threshold-reject-judged": (500, 5000),
               "statistic-compared": (5000, 150000), "lineages-compared": (2000, 60000), "forcing-compared": (300, 8000)}
 ASSUMPTIONS = ["formulas: Sackin/Colless normalisations after Blum & Francois 2006 / Kirkpatrick & Slatkin 1993, B1 after Shao & Sokal 1990, gamma after Pybus & Harvey 2000",
                "dyadic heights make reference arithmetic exact; float cases use 1e-9 relative tolerance"]
